@@ -149,3 +149,98 @@ func replayC02(t *testing.T, p string) {
 // storageMatchesRecorded: a recorded history is evidence about the tree it was recorded on; when a replay
 // is run against another tree (e.g. the repaired one) only the re-execution counts.
 func storageMatchesRecorded() bool { return vstat.EnvInt("VERIF_REPLAY_TRUST_HISTORY", 0) == 1 }
+
+// ---------------------------------------------------------------------------------------------
+// wire-scheduled histories over the Redis backend (see wiresched.go)
+
+func genSchedCase(t *rapid.T) SchedCase {
+	var c SchedCase
+	c.Backend = "redis"
+	shape := rapid.SampledFrom([]string{"mixed", "mixed", "pairs", "creators", "cas_race"}).Draw(t, "shape")
+	nt := rapid.IntRange(2, 4).Draw(t, "threads")
+	switch shape {
+	case "creators":
+		c.NKeys = 1
+		for i := 0; i < nt; i++ {
+			p := []COp{{K: rapid.SampledFrom([]string{"create", "create", "delete", "put"}).Draw(t, "k"), Exp: rapid.Bool().Draw(t, "exp")}, {K: "get"}}
+			if i == 0 {
+				p = append([]COp{{K: "put"}}, p...)
+			}
+			c.Programs = append(c.Programs, p)
+		}
+	case "cas_race":
+		c.NKeys = 1
+		c.Programs = append(c.Programs, []COp{{K: "put"}, {K: "get"}, {K: "cas"}, {K: "get"}})
+		for i := 1; i < nt; i++ {
+			c.Programs = append(c.Programs, []COp{{K: "get"}, {K: rapid.SampledFrom([]string{"cas", "cas", "put", "delete", "create"}).Draw(t, "k"), Exp: rapid.Bool().Draw(t, "exp")}, {K: "get"}})
+		}
+	case "pairs": // two single calls against each other on a prepared key
+		c.NKeys = 1
+		nt = 2
+		kinds := []string{"create", "put", "cas", "delete", "get", "putmany", "getmany"}
+		for i := 0; i < 2; i++ {
+			op := COp{K: rapid.SampledFrom(kinds).Draw(t, "k"), Exp: rapid.Bool().Draw(t, "exp"), Keys: []int{0}}
+			p := []COp{op}
+			if op.K == "cas" {
+				p = []COp{{K: "get"}, op}
+			}
+			if i == 0 && rapid.Bool().Draw(t, "prepared") {
+				p = append([]COp{{K: "put"}}, p...)
+			}
+			c.Programs = append(c.Programs, p)
+		}
+	default:
+		c.NKeys = rapid.IntRange(1, 2).Draw(t, "nkeys")
+		for i := 0; i < nt; i++ {
+			c.Programs = append(c.Programs, genProgram(t, c.NKeys, 4))
+		}
+	}
+	c.Order = rapid.SliceOfN(rapid.IntRange(0, 11), 0, 60).Draw(t, "order")
+	return c
+}
+
+func runC02Wire(t vstat.TB, test string, c SchedCase) {
+	st := vstat.For("C02")
+	hist, cmdlog, v := RunWireSched(c)
+	var info CInfo
+	if v == nil {
+		info, v = CheckHistory("redis", hist)
+	}
+	if v != nil {
+		c.History = hist
+		v.Msg += "\n  redis commands in the order they were let through: " + joinMax(cmdlog, 120)
+		st.Report(t, test, c, v)
+		return
+	}
+	if info.Inconclusive {
+		st.Inconclusivef("porcupine gave up on a history of %d operations (not a violation)", len(hist))
+	}
+	cl := append(info.Classes, "backend:redis", "wire_scheduled")
+	// non-trivial: commands of different threads really alternated inside a multi-command call
+	switches := 0
+	for i := 1; i < len(cmdlog); i++ {
+		if cmdlog[i][:2] != cmdlog[i-1][:2] {
+			switches++
+		}
+	}
+	st.Case(info.Overlap && switches >= 2, vstat.Hash(c), func() any { return c }, cl...)
+	st.AddExtra("wire_commands_scheduled", int64(len(cmdlog)))
+}
+
+func joinMax(xs []string, n int) string {
+	if len(xs) > n {
+		xs = append(append([]string{}, xs[:n]...), "...")
+	}
+	out := ""
+	for i, x := range xs {
+		if i > 0 {
+			out += " "
+		}
+		out += x
+	}
+	return out
+}
+
+func TestC02RedisWire(t *testing.T) {
+	rapid.Check(t, func(rt *rapid.T) { runC02Wire(rt, "TestC02RedisWire", genSchedCase(rt)) })
+}
